@@ -42,7 +42,7 @@ def entry_points(ctx):
         if st.get("path") == "ops::temp::TempValue":
             for im in op_impls:
                 facts, _ = range_handle_invariants(ctx, im["self_ty"]["path"], prefix=("op",))
-                out.append((path, {"Op": im["self_ty"]}, facts, "Op=" + im["self_ty"]["path"].split("::")[-1]))
+                out.append((path, {ctx.tparam(path, 0): im["self_ty"]}, facts, "Op=" + im["self_ty"]["path"].split("::")[-1]))
             continue
         facts = None
         if st.get("path") in handle_adts and f.get("self_kind") in ("ref", "mut", "value"):
